@@ -49,7 +49,7 @@ class C09(PropBase):
     REQUIRED_CELLS = tuple("%s/%s" % (k, c) for k in policy.RESPONSE_KINDS for c in ID_CLASSES)
     REQUIRED_REACH = ("dup_final", "response_after_done", "entry_for_nonsearch", "request_to_client", "id_after_refused_call",
                       "refused_search_while_binding_then_response", "notice_or_unbind_to_client", "two_in_progress",
-                      "closed_then_request_probes", "long_session_preroll")
+                      "closed_then_request_probes", "long_session_preroll", "unimplemented_protocol_op_to_client")
 
     def init_op(self, rng):
         return {"op": "init", "sessions": [{"name": "c", "role": "c"}], "observe_pending": True,
@@ -101,6 +101,12 @@ class C09(PropBase):
                     return {"op": "inject", "to": "c", "msg": {"t": "UnbindRequest", "id": rng.choice([0, 1]), "controls": []}}
                 mid = policy.pick_sorted(rng, model.out) if model.out and rng.random() < 0.6 else 0
                 return {"op": "inject", "to": "c", "msg": policy.byz_response(g, mid, "ExtendedResponse", notice=True)}
+            if rng.random() < 0.04:
+                # an operation the library does not implement, with an id of any class
+                cls = rng.choice(["search", "nonsearch", "completed", "next", "zero"])
+                mid = policy.client_id_class_pick(rng, model, cls)
+                st.hit("unimplemented_protocol_op_to_client")
+                return {"op": "inject", "to": "c", "msg": policy.byz_raw_op(rng, mid if mid is not None else 0)}
             if bad or not model.out:
                 kinds = policy.RESPONSE_KINDS
                 k = (self.idx + w.events) % (len(kinds) * 5)
